@@ -115,6 +115,9 @@ func (st *Stats) Count(name string, n int) { st.Counters[name] += n }
 // are not single simulated runs).
 func (st *Stats) AddDistinct(h uint64) { st.addHash(st.distinct, h) }
 
+// NewStats is for harnesses that account outside Main (a child process).
+func NewStats() *Stats { return newStats() }
+
 func newStats() *Stats {
 	return &Stats{Faults: map[string]int{}, Probes: map[string]int{}, Strategies: map[string]int{}, Counters: map[string]int{},
 		distinct: map[uint64]struct{}{}, interleavings: map[uint64]struct{}{}}
